@@ -490,7 +490,8 @@ def _resume_marks(pending):
     return pending
 
 
-def compile_conditional(run, ctx):
+def compile_conditional(run, ctx, balance=True):
+    """balance=False: only the template's order / targets (for properties the explicit-stack balance does not bear on)."""
     fam, label = "TMPL", "compile_conditional"
     fn = S.get_fn(run, ctx, "compile::Compiler::compile_conditional", fam, label)
     if fn is None:
@@ -544,7 +545,7 @@ def compile_conditional(run, ctx):
         run.violation(fam, label, "balance-error/" + e[:40], w, "compile_conditional: " + e)
     n += len(res)
     for how, depth in res:
-        if depth != 0:
+        if depth != 0 and balance:
             run.violation(fam, label, "explicit-stack-imbalance/%s" % how.split(">")[-1], w,
                           "explicit-stack imbalance: on the template path `%s` the conditional is left with %d value(s) still on the explicit stack (BeginAtomic pushed before the Split, no EndAtomic on the condition-fails path); an enclosing atomic group / conditional then commits to the wrong branch count   [template: %s]" % (how, depth, t.show()))
     run.ok(fam, label, w, n, "template %s" % t.show())
@@ -784,7 +785,14 @@ def compile_lookaround_dispatch(run, ctx):
             if not ok:
                 run.violation(fam, label, var + "/per-alternative", H.where(a),
                               "%s with a variable-size alternation body must be split per alternative (%s), found %s" % (var, "alternation of look-behinds" if var == "LookBehind" else "sequence of negative look-behinds", c[:160]))
-    run.ok(fam, label, H.where(fn), n, "4 look-around kinds -> positive/negative helper; look-behind alternations split per alternative")
+    # the pieces of a split look-behind are tried in the order the alternatives are written (which alternative
+    # succeeds first decides the capture groups set inside it): nothing in this function may reorder them
+    reord = [nd for nd in H.walk(fn["body"]) if nd.get("k") == "MethodCall" and nd["name"] in
+             ("sort", "sort_by", "sort_by_key", "sort_unstable", "sort_unstable_by", "sort_unstable_by_key", "sort_by_cached_key", "reverse", "rev", "swap", "rotate_left", "rotate_right", "select_nth_unstable")]
+    for nd in reord:
+        run.violation(fam, label, "reorder/" + nd["name"], H.where(nd), "compile_lookaround calls .%s(): the alternatives of a look-behind must be compiled in source order (the first alternative that matches decides the captures, e.g. (?<=(ab)|(b))c on \"abc\")" % nd["name"])
+    n += 1
+    run.ok(fam, label, H.where(fn), n, "4 look-around kinds -> positive/negative helper; look-behind alternations split per alternative, in source order")
 
 
 # ---------------------------------------------------------------------------------------------
